@@ -21,7 +21,7 @@ impl Scenario for C10 {
         "C10"
     }
     fn rule(&self) -> String {
-        "Family 'program' (seeded): negotiated channel_max from {1,2,3,8,255,2047,65534,65535} (client option x server Tune), programs of <= 60 operations out of open_channel(Some(id)) with id from {0, 1, max-1, max, max+1, 65535, an id that is open, an id that was freed, random}, open_channel(None), client close of a kept channel, server close of a kept channel; all on the connection owner's thread (open_channel takes &mut Connection) while the broker answers with latencies. Reference model: the set of open ids => Ok(id) / UnavailableChannelId(id) / some free id in 1..=max / ExhaustedChannelIds. Oracle: every result equals the model's (for None: any id that is free), no two open channels share an id, never id 0, Channel.Open appears on exactly that id on the wire, no hang, no panic. Family 'wrap' (one long run per tier): channel_max = 65535 and > 65535 automatic allocations with immediate close, to cross the never-used-id counter's upper end. Non-trivial = the program exhausted the id space at least once or reused a freed id; distinct = hash of (channel_max, operation sequence).".to_string()
+        "Family 'program' (seeded): negotiated channel_max from {1,2,3,8,255,2047,65534,65535} (client option x server Tune), programs of <= 60 operations out of open_channel(Some(id)) with id from {0, 1, max-1, max, max+1, 65535, an id that is open, an id that was freed, random}, open_channel(None), client close of a kept channel, server close of a kept channel, both at about the same time (the two Close frames may cross; the id is then re-used with or without a pause); all on the connection owner's thread (open_channel takes &mut Connection) while the broker answers with latencies. Reference model: the set of open ids => Ok(id) / UnavailableChannelId(id) / some free id in 1..=max / ExhaustedChannelIds. Oracle: every result equals the model's (for None: any id that is free), no two open channels share an id, never id 0, Channel.Open appears on exactly that id on the wire, no hang, no panic. Family 'wrap' (one long run per tier): channel_max = 65535 and > 65535 automatic allocations with immediate close, to cross the never-used-id counter's upper end. Non-trivial = the program exhausted the id space at least once or reused a freed id; distinct = hash of (channel_max, operation sequence).".to_string()
     }
     fn plan(&self, thorough: bool, seed: u64) -> Vec<CaseSpec> {
         let mut v = plan_random("C10", "program", seed, if thorough { 120_000 } else { 8_000 });
@@ -96,8 +96,18 @@ impl Scenario for C10 {
                     _ => {
                         if !open.is_empty() {
                             let nth = cs.choose("srv_close_which", open.len() as u32) as usize;
-                            owner_ops.push(OwnerOp::ServerCloseKept { nth, code: 400 + cs.choose("code", 100) as u16 });
-                            expects.push((format!("server-close(kept #{})", nth), Exp::Exhausted));
+                            if cs.choose("crossing", 3) == 0 {
+                                // both sides close the channel at about the same time: the Close frames may cross,
+                                // the server's CloseOk for the client's Close then arrives for an id that is
+                                // closed already (or, without the pause, already open again)
+                                let lead_ns = *pick(&mut cs, "cross_lead", &[0u64, 1_000, 30_000, 150_000]);
+                                let settle_ns = *pick(&mut cs, "cross_settle", &[20_000_000u64, 0, 50_000]);
+                                owner_ops.push(OwnerOp::CrossCloseKept { nth, code: 400 + cs.choose("code", 100) as u16, lead_ns, settle_ns });
+                                expects.push((format!("crossing-close(kept #{}, lead {} ns, settle {} ns)", nth, lead_ns, settle_ns), Exp::Exhausted));
+                            } else {
+                                owner_ops.push(OwnerOp::ServerCloseKept { nth, code: 400 + cs.choose("code", 100) as u16 });
+                                expects.push((format!("server-close(kept #{})", nth), Exp::Exhausted));
+                            }
                         }
                     }
                 }
@@ -192,7 +202,7 @@ impl Scenario for C10 {
                         exhausted_once = true;
                     }
                 }
-                OwnerOp::CloseKept { nth } | OwnerOp::ServerCloseKept { nth, .. } => {
+                OwnerOp::CloseKept { nth } | OwnerOp::ServerCloseKept { nth, .. } | OwnerOp::CrossCloseKept { nth, .. } => {
                     if let Some(slot) = kept_ids.get_mut(*nth) {
                         if let Some(id) = slot.take() {
                             model_open.remove(&id);
@@ -240,6 +250,8 @@ impl Scenario for C10 {
         rep.count("c10.opens", opened_ids_in_order.len() as u64);
         rep.count("c10.exhausted", exhausted_once as u64);
         rep.count("c10.reused_freed_id", reused as u64);
+        rep.count("c10.crossing_closes", res.hist.notes.iter().filter(|n| n.starts_with("cross-closed")).count() as u64);
+        rep.count("c10.crossing_closes_crossed", world.broker.sent.iter().enumerate().filter(|(i, s)| if let crate::broker::SentKind::ChannelClose { ch, .. } = &s.kind { world.broker.sent[i + 1..].iter().find_map(|x| match &x.kind { crate::broker::SentKind::Reply { ch: c, method, .. } if c == ch => Some(matches!(method, AMQPClass::Channel(Ch::CloseOk(_)))), _ => None }).unwrap_or(false) } else { false }).count() as u64);
         rep.nontrivial = exhausted_once || reused || wrap;
         let mut h = max as u64;
         for e in &expects {
